@@ -13,6 +13,11 @@ inline void use()
 	table.Add(std::move(row));
 	Table::Row row3 = table.NewRow(colInt = 5);   // pvNewRow (catch path: pvDestroyRaw)
 	Table::Row row2 = table.Extract(0);   // pvMakeRow; ~DataRow at scope exit
+	Table::Row row4 = table.NewRow(row3);  // pvImportRaw
+	table.TryInsert(0, std::move(row4));
+	table.TryUpdate(size_t(0), std::move(row3));
+	table.Remove([] (Table::ConstRowReference) { return true; });   // pvRemove(filter)
+	{ Table copy(table); }                // pvFill
 	table.Remove(size_t(0), true);        // Remove(rowNumber): pvDestroyRaw(pvExtractRaw(..))
 	table.Clear();                        // pvDestroyRaws -> pvDeallocateFreeRaws
 	Table table2(std::move(table));       // DataTable(DataTable&&)
